@@ -99,7 +99,24 @@ pub fn free_run(seed: u64, threads: usize, iters: usize, trees: usize, delay_per
                         let class = cfg.classes[rng.below(cfg.classes.len())].0;
                         let n = cfg.slot_count(class).unwrap_or(0);
                         let slot = if n == 0 || rng.chance(1, 5) { None } else { Some(if rng.chance(1, 2) { 0 } else { t % n }) };
-                        match rng.below(20) {
+                        match rng.below(22) {
+                            20 | 21 => {
+                                // queries are valid calls too (their results are not judged under concurrency;
+                                // what matters here is that the sanitizers / Miri see them race with get/put)
+                                let f = FrameId(rng.below(frames.max(1)));
+                                let r = catch(|| match rng.below(6) {
+                                    0 => a.stats().free_frames,
+                                    1 => a.tree_stats().free_frames,
+                                    2 => a.stats_at(f, 0).free_frames,
+                                    3 => a.stats_at(FrameId(f.0 / HUGE_FRAMES * HUGE_FRAMES), HUGE_ORDER).free_frames,
+                                    4 => a.stats_at(FrameId(f.0 / TREE_FRAMES * TREE_FRAMES), TREE_ORDER).free_frames,
+                                    _ => if (f.0 & !7) + 8 <= frames { a.lower.is_free(FrameId(f.0 & !7), 3) as usize } else { a.lower.is_free(f, 0) as usize },
+                                });
+                                if let Err(p) = r {
+                                    viols.lock().unwrap().push(("C03", format!("free-running: statistics query panicked: {p}")));
+                                    return;
+                                }
+                            }
                             0..=9 => {
                                 let order = *rng.pick(orders);
                                 if (1usize << order) > frames {
